@@ -14,6 +14,7 @@ struct rfwc_ghost {
   const void *cb_data;       /* callback_data argument */
   int cb_given;              /* callback != NULL */
   econf_file *obj;           /* *key_file on entry */
+  const char *delim_arg, *comment_arg;   /* delim / comment arguments */
   /* lstat stub (call 1 = the file, call 2 = its directory) */
   int lstat_calls;
   const char *lstat_name;    /* path of call 1 */
@@ -53,6 +54,10 @@ __CPROVER_requires(GATE_RULES_OK)
 __CPROVER_requires(CB_ACCEPTED)
 __CPROVER_requires(ef != NULL && ef == g.obj && file != NULL && file == g.abs_path)
 __CPROVER_requires(delim != NULL && comment != NULL && *comment != 0)
+/* C05/C02: the parser works with the caller's delimiter set and comment set; an empty comment set means "#" */
+__CPROVER_requires(delim == g.delim_arg)
+__CPROVER_requires(g.comment_arg != NULL && (g.comment_arg[0] != 0 ? comment == g.comment_arg
+                                                                   : (comment[0] == '#' && comment[1] == 0)))
 __CPROVER_requires(g.rf_calls == 0)
 __CPROVER_assigns(g.rf_calls, g.rf_ret, g.rf_obj, g.rf_path)
 __CPROVER_ensures(g.rf_calls == 1 && g.rf_obj == ef && g.rf_path == file)
